@@ -454,6 +454,331 @@ end GV.C08gen.{f}
     return T, names
 
 
+def single(f):
+    """one-word fields: goldilocks (64-bit word, toMont = Mul by rSquare), koalabear / babybear (32-bit word, toMont = (z << 32) % q)"""
+    c = consts(f)
+    q, n, w, NB = c['q'], c['limbs'], c['word'], c['bytes']
+    assert n == 1
+    wb = w // 8
+    W = 2 ** w
+    F = f[0].upper() + f[1:]
+    G = f"Gen.Bytes.{f}"
+    L = f"Gen.Limb.{f}"
+    rs = c['rsq'][0]
+    gold = (w == 64)
+    imp = f"import GnarkVerif.Props.C01_limb2_{f}" if gold else f"import GnarkVerif.Props.C01_limb_{f}"
+    if gold:
+        tm = lambda z: f"({L}.Mul {z} {rs})"
+        tm_proof = f"""  have hr : ({rs} : Nat) = GV.Field.rSquare P := by decide +kernel
+  have hr' : ({rs} : Nat) < P.q := by rw [hr]; exact rSquare_lt P P_ok
+  have e := Mul_spec z {rs} hz hr'
+  have e2 : {L}.Mul z {rs} = GV.Field.toMont P z := by rw [e]; unfold GV.Field.toMont; rw [← hr]
+  exact ⟨by rw [e2]; exact toMont_lt P P_ok z hz, e2⟩"""
+    else:
+        tm = lambda z: f"(((({z} * {2**32}) % {2**64}) % {q}) % {2**32})"
+        tm_proof = f"""  have e := Conv.toMont_eq_mulR P P_ok z hz
+  have hR : P.R = {2**32} := by decide +kernel
+  rw [hR, P_q] at e
+  rw [P_q] at hz
+  have h1 : z * {2**32} % {2**64} = z * {2**32} := Nat.mod_eq_of_lt (by omega)
+  have h2 : z * {2**32} % {q} % {2**32} = z * {2**32} % {q} := Nat.mod_eq_of_lt (by omega)
+  have : {tm('z')} = z * {2**32} % {q} := by rw [h1, h2]
+  rw [this, ← e]
+  exact ⟨by have := toMont_lt P P_ok z (by rw [P_q]; exact hz); rwa [P_q] at this, rfl⟩"""
+    T = f"""import GnarkVerif.Proofs.Bytes
+{imp}
+import GnarkVerif.Gen.Bytes.{F}
+/-
+C08_gen ({f}, one {w}-bit word) — the byte <-> word conversion code of /repo's {f} package (Gen/Bytes/{F}.lean, regenerated on every run
+by tools/goslp/bytes.go, calling Gen/Limb/{F}.lean of the same run) against the hand model `GV.Conv` and the field model `GV.Field`, for
+ALL byte arrays and ALL canonical elements. A decoder result is `(word, err)` with err = 0 for nil.
+-/
+set_option maxRecDepth 100000
+set_option maxHeartbeats 2000000
+set_option linter.unusedVariables false
+set_option linter.unusedSimpArgs false
+namespace GV.C08gen.{f}
+open GV.Field GV.Limb GV.Bytes GV.Limb.{f}
+
+theorem q_le : P.q ≤ 256 ^ {NB} := by rw [P_q]; decide
+theorem q_lt_W : P.q < {W} := by rw [P_q]; decide
+theorem nBytes_eq : {G}.nBytes = {NB} ∧ GV.Gen.{f}.bytes = {NB} := ⟨rfl, rfl⟩
+
+theorem smaller_iff' (z : Nat) : {L}.smallerThanModulus z ↔ z < P.q := by rw [P_q]; rfl
+
+/-- `toMont` of the Go text ({'`z.Mul(z, &rSquare)`' if gold else '`z[0] = uint32((uint64(z[0]) << 32) % q)`'}) is `GV.Field.toMont` -/
+theorem toMont_spec (z : Nat) (hz : z < P.q) :
+    {tm('z')} < P.q ∧ {tm('z')} = GV.Field.toMont P z := by
+{tm_proof}
+
+theorem toMont_def (z : Nat) : {G}.toMont z = {tm('z')} := rfl
+
+theorem words_BE (b : List UInt8) : Conv.limbsOfBE {wb} 1 b = [beUint {wb} (slice b 0 {wb})] := by
+  simp [Conv.limbsOfBE, Conv.chunks, slice, beUint, List.take_take]
+
+theorem words_LE (b : List UInt8) : Conv.limbsOfLE {wb} 1 b = [leUint {wb} (slice b 0 {wb})] := by
+  simp [Conv.limbsOfLE, Conv.chunks, slice, leUint, List.take_take]
+
+theorem words_BE_spec (b : List UInt8) (hb : b.length = {NB}) :
+    beUint {wb} (slice b 0 {wb}) < {W} ∧ beUint {wb} (slice b 0 {wb}) = Conv.beToNat b := by
+  have hl := Conv.limbsOfBE_lt {wb} 1 b
+  have e := Conv.ofLimbs_limbsOfBE {wb} 1 b (by rw [hb])
+  rw [words_BE] at e hl
+  simp only [List.mem_cons, List.mem_nil_iff, or_false, forall_eq, Nat.reducePow] at hl
+  rw [Conv.ofLimbs_single] at e
+  exact ⟨hl, e⟩
+
+theorem words_LE_spec (b : List UInt8) (hb : b.length = {NB}) :
+    leUint {wb} (slice b 0 {wb}) < {W} ∧ leUint {wb} (slice b 0 {wb}) = Conv.leToNat b := by
+  have hl := Conv.limbsOfLE_lt {wb} 1 b
+  have e := Conv.ofLimbs_limbsOfLE {wb} 1 b (by rw [hb])
+  rw [words_LE] at e hl
+  simp only [List.mem_cons, List.mem_nil_iff, or_false, forall_eq, Nat.reducePow] at hl
+  rw [Conv.ofLimbs_single] at e
+  exact ⟨hl, e⟩
+"""
+    for kind, dec in (("BE", "Conv.beToNat"), ("LE", "Conv.leToNat")):
+        E = "bigEndian" if kind == "BE" else "littleEndian"
+        fn = f"{E}_Element"
+        uint = "beUint" if kind == "BE" else "leUint"
+        enc = "Conv.natToBE" if kind == "BE" else "Conv.natToLE"
+        digits = "Conv.beToNat_natToBE" if kind == "BE" else "Conv.leToNat_natToLE"
+        inv = "Conv.natToBE_beToNat" if kind == "BE" else "Conv.natToLE_leToNat"
+        T += f"""
+/-- **C08_gen** `{E}.Element` rejects every array whose value is `≥ q` -/
+theorem {fn}_reject (b : List UInt8) (hb : b.length = {NB}) (h : P.q ≤ {dec} b) : {G}.{fn} b = (0, 1) := by
+  obtain ⟨hw, hv⟩ := words_{kind}_spec b hb
+  unfold {G}.{fn}
+  simp only []
+  generalize {uint} {wb} (slice b 0 {wb}) = z at hw hv ⊢
+  subst hv
+  have hn : ¬ {L}.smallerThanModulus ({dec} b) := by rw [smaller_iff']; omega
+  simp only [hn, not_false_eq_true, if_true]
+
+/-- … and accepts every other one: the canonical Montgomery element of the value, error nil -/
+theorem {fn}_accept (b : List UInt8) (hb : b.length = {NB}) (h : {dec} b < P.q) :
+    ∃ m : Nat, m < P.q ∧ m = GV.Field.toMont P ({dec} b) ∧ {G}.{fn} b = (m, 0) := by
+  obtain ⟨hw, hv⟩ := words_{kind}_spec b hb
+  unfold {G}.{fn}
+  simp only []
+  generalize {uint} {wb} (slice b 0 {wb}) = z at hw hv ⊢
+  subst hv
+  have hs : {L}.smallerThanModulus ({dec} b) := by rw [smaller_iff']; exact h
+  obtain ⟨g, e⟩ := toMont_spec ({dec} b) h
+  refine ⟨_, g, e, ?_⟩
+  simp only [hs, not_true_eq_false, if_false]
+
+theorem {fn}_err_iff (b : List UInt8) (hb : b.length = {NB}) : ({G}.{fn} b).2 ≠ 0 ↔ P.q ≤ {dec} b := by
+  by_cases h : {dec} b < P.q
+  · obtain ⟨m, _, _, e⟩ := {fn}_accept b hb h
+    rw [e]; simp only [ne_eq, not_true_eq_false, false_iff]; omega
+  · rw [{fn}_reject b hb (by omega)]; simp only [ne_eq, one_ne_zero, not_false_eq_true, true_iff]; omega
+
+/-- the hand model's decoder is the generated one followed by `fromMont` -/
+theorem {fn}_model (b : List UInt8) (hb : b.length = {NB}) :
+    Conv.element{kind} P.q b =
+      (if ({G}.{fn} b).2 = 0 then .ok (GV.Field.fromMont P ({G}.{fn} b).1) else .error .invalid) := by
+  by_cases h : {dec} b < P.q
+  · obtain ⟨m, _, hm, e⟩ := {fn}_accept b hb h
+    rw [e]
+    simp only [if_true, hm, fromMont_toMont P P_ok _ h, Conv.element{kind}, h]
+  · rw [{fn}_reject b hb (by omega)]
+    simp only [one_ne_zero, if_false, Conv.element{kind}, h]
+
+/-- **C08_gen** `{E}.PutElement` writes the base-256 digits (length Bytes) of the regular value -/
+theorem {E}_PutElement_spec (b : List UInt8) (hb : b.length = {NB}) (z : Nat) (hz : z < P.q) :
+    {G}.{E}_PutElement b z = Conv.toBytes{kind} {NB} (GV.Field.fromMont P z) := by
+  have e := fromMontGeneric_spec z hz
+  have hf := fromMont_lt P P_ok z hz
+  unfold {G}.{E}_PutElement
+  simp only []
+  rw [e]
+  generalize GV.Field.fromMont P z = r at hf ⊢
+  have hr : r < {W} := lt_trans hf q_lt_W
+  have l1 : (putSlice b 0 {wb} ({enc} {wb} r)).length = {NB} := by
+    rw [Conv.length_putSlice _ _ _ _ (by omega) (by omega) (by rw [{enc}_length])]; exact hb
+  have s0 : slice (putSlice b 0 {wb} ({enc} {wb} r)) 0 {wb} = {enc} {wb} r := by
+    rw [Conv.slice_putSlice_same _ _ _ _ (by omega) (by omega) (by rw [{enc}_length])]
+  have hw : Conv.limbsOf{kind} {wb} 1 (putSlice b 0 {wb} ({enc} {wb} r)) = [r] := by
+    rw [words_{kind}]
+    simp only [{uint}, s0, List.take_of_length_le (Nat.le_of_eq ({enc}_length {wb} _)), Conv.{'beToNat_natToBE' if kind=='BE' else 'leToNat_natToLE'}_of_lt {wb} r (by omega)]
+  have := Conv.eq_{'natToBE' if kind=='BE' else 'natToLE'}_of_limbs {wb} 1 _ [r] (by rw [l1]) hw
+  rw [Conv.ofLimbs_single] at this
+  exact this
+
+/-- **C08_gen** `{E}.Element ({E}.PutElement z) = (z, nil)` for every canonical `z` -/
+theorem {E}_roundtrip (b : List UInt8) (hb : b.length = {NB}) (z : Nat) (hz : z < P.q) :
+    {G}.{E}_Element ({G}.{E}_PutElement b z) = (z, 0) := by
+  rw [{E}_PutElement_spec b hb z hz]
+  have hf := fromMont_lt P P_ok _ hz
+  have hl : (Conv.toBytes{kind} {NB} (GV.Field.fromMont P z)).length = {NB} := by simp [Conv.toBytes{kind}]
+  have hv : {dec} (Conv.toBytes{kind} {NB} (GV.Field.fromMont P z)) = GV.Field.fromMont P z := by
+    rw [Conv.toBytes{kind}, {digits}, Nat.mod_eq_of_lt (lt_of_lt_of_le hf q_le)]
+  obtain ⟨m, _, hm, e⟩ := {fn}_accept _ hl (by rw [hv]; exact hf)
+  rw [hv, toMont_fromMont P P_ok _ hz] at hm
+  rw [e, hm]
+
+/-- **C08_gen** `{E}.PutElement ({E}.Element b) = b` whenever `b` is accepted -/
+theorem {E}_roundtrip' (b t : List UInt8) (hb : b.length = {NB}) (ht : t.length = {NB}) (h : {dec} b < P.q) :
+    {G}.{E}_PutElement t ({G}.{E}_Element b).1 = b := by
+  obtain ⟨m, g, hm, e⟩ := {fn}_accept b hb h
+  rw [e]
+  show {G}.{E}_PutElement t m = b
+  rw [{E}_PutElement_spec t ht m g, hm, fromMont_toMont P P_ok _ h, Conv.toBytes{kind}, ← hb, {inv}]
+"""
+    T += f"""
+/-! ### `Bytes`, `SetBytesCanonical`, `SetBytes` -/
+
+theorem Bytes_eq (z : Nat) : {G}.Bytes z = {G}.bigEndian_PutElement (List.replicate {NB} 0) z := rfl
+
+theorem Bytes_spec (z : Nat) (hz : z < P.q) : {G}.Bytes z = Conv.toBytesBE {NB} (GV.Field.fromMont P z) := by
+  rw [Bytes_eq, bigEndian_PutElement_spec _ (List.length_replicate ..) z hz]
+
+theorem SetBytesCanonical_eq (z : Nat) (e : List UInt8) :
+    {G}.SetBytesCanonical z e =
+      if e.length ≠ {NB} then (z, 2)
+      else if ({G}.bigEndian_Element e).2 ≠ 0 then (z, ({G}.bigEndian_Element e).2)
+      else {G}.bigEndian_Element e := by
+  by_cases hl : e.length = {NB}
+  · have ha : toArray {NB} e = e := Conv.toArray_eq _ _ hl
+    unfold {G}.SetBytesCanonical {G}.bigEndian_Element
+    simp only [ha, hl, ne_eq, not_true_eq_false, if_false]
+    split <;> rename_i hc
+    · simp only [hc, not_false_eq_true, if_true, one_ne_zero]
+    · simp only [hc, not_true_eq_false, if_false]
+  · unfold {G}.SetBytesCanonical
+    simp only [hl, ne_eq, not_false_eq_true, if_true]
+
+/-- **C08_gen** `SetBytesCanonical` accepts EXACTLY the `Bytes`-long big-endian encodings of the integers below `q` -/
+theorem SetBytesCanonical_spec (z : Nat) (e : List UInt8) :
+    (({G}.SetBytesCanonical z e).2 = 0 ↔ (e.length = {NB} ∧ Conv.beToNat e < P.q)) ∧
+    (e.length = {NB} → Conv.beToNat e < P.q → ∃ m : Nat, m < P.q ∧ m = GV.Field.toMont P (Conv.beToNat e) ∧
+      {G}.SetBytesCanonical z e = (m, 0)) ∧
+    (¬ (e.length = {NB} ∧ Conv.beToNat e < P.q) → ∃ c, c ≠ 0 ∧ {G}.SetBytesCanonical z e = (z, c)) := by
+  by_cases hl : e.length = {NB}
+  · by_cases h : Conv.beToNat e < P.q
+    · obtain ⟨m, g, hm, he⟩ := bigEndian_Element_accept e hl h
+      have key : {G}.SetBytesCanonical z e = (m, 0) := by
+        rw [SetBytesCanonical_eq, he]; simp only [hl, ne_eq, not_true_eq_false, if_false]
+      rw [key]
+      exact ⟨⟨fun _ => ⟨hl, h⟩, fun _ => rfl⟩, fun _ _ => ⟨m, g, hm, rfl⟩, fun hn => absurd ⟨hl, h⟩ hn⟩
+    · have he := bigEndian_Element_reject e hl (by omega)
+      have key : {G}.SetBytesCanonical z e = (z, 1) := by
+        rw [SetBytesCanonical_eq, he]; simp only [hl, ne_eq, not_true_eq_false, if_false, one_ne_zero, not_false_eq_true, if_true]
+      rw [key]
+      exact ⟨⟨fun h0 => absurd h0 one_ne_zero, fun hh => absurd hh.2 h⟩, fun _ hh => absurd hh h, fun _ => ⟨1, one_ne_zero, rfl⟩⟩
+  · have key : {G}.SetBytesCanonical z e = (z, 2) := by
+      rw [SetBytesCanonical_eq]; simp only [hl, ne_eq, not_false_eq_true, if_true]
+    rw [key]
+    exact ⟨⟨fun h0 => absurd (show (2 : Nat) = 0 from h0) (by omega), fun hh => absurd hh.1 hl⟩, fun hh _ => absurd hh hl, fun _ => ⟨2, by omega, rfl⟩⟩
+
+theorem SetBytesCanonical_model (z : Nat) (e : List UInt8) :
+    Conv.setBytesCanonical P.q {NB} e =
+      (if ({G}.SetBytesCanonical z e).2 = 0 then .ok (GV.Field.fromMont P ({G}.SetBytesCanonical z e).1)
+       else if e.length ≠ {NB} then .error .length else .error .invalid) := by
+  obtain ⟨h1, h2, h3⟩ := SetBytesCanonical_spec z e
+  unfold Conv.setBytesCanonical
+  by_cases hl : e.length = {NB}
+  · by_cases h : Conv.beToNat e < P.q
+    · obtain ⟨m, g, hm, he⟩ := h2 hl h
+      rw [he]
+      simp only [hl, ne_eq, not_true_eq_false, if_false, if_true, hm, fromMont_toMont P P_ok _ h, Conv.elementBE, h]
+    · obtain ⟨c, hc, he⟩ := h3 (fun hh => h hh.2)
+      rw [he]
+      simp only [hl, ne_eq, not_true_eq_false, if_false, hc, Conv.elementBE, h]
+  · obtain ⟨c, hc, he⟩ := h3 (fun hh => hl hh.1)
+    rw [he]
+    simp only [hl, ne_eq, not_false_eq_true, if_true, hc, if_false]
+
+/-- **C08_gen** `SetBytes`: fast path (= `BigEndian.Element`) on a canonical `Bytes`-long input, the slow path `setBigIntBE e` (a PARAMETER:
+`big.Int.SetBytes(e)` then `SetBigInt`) on EVERY other input -/
+theorem SetBytes_spec (setBigIntBE : List UInt8 → Nat) (e : List UInt8) :
+    (e.length = {NB} → Conv.beToNat e < P.q → {G}.SetBytes setBigIntBE e = ({G}.bigEndian_Element e).1) ∧
+    (¬ (e.length = {NB} ∧ Conv.beToNat e < P.q) → {G}.SetBytes setBigIntBE e = setBigIntBE e) := by
+  constructor
+  · intro hl h
+    have ha : toArray {NB} e = e := Conv.toArray_eq _ _ hl
+    obtain ⟨m, g, hm, he⟩ := bigEndian_Element_accept e hl h
+    have he' := he
+    unfold {G}.bigEndian_Element at he
+    simp only [Prod.mk.injEq] at he
+    unfold {G}.SetBytes
+    simp only [ha, hl, if_true, he, he']
+  · intro hn
+    by_cases hl : e.length = {NB}
+    · have h : P.q ≤ Conv.beToNat e := by
+        by_contra hc; exact hn ⟨hl, by omega⟩
+      have ha : toArray {NB} e = e := Conv.toArray_eq _ _ hl
+      have he := bigEndian_Element_reject e hl h
+      unfold {G}.bigEndian_Element at he
+      simp only [Prod.mk.injEq] at he
+      unfold {G}.SetBytes
+      simp only [ha, hl, if_true, he, one_ne_zero, if_false]
+    · unfold {G}.SetBytes
+      simp only [hl, if_false]
+
+/-- with the slow path specified as the model says, `SetBytes` is `be(e) mod q` in Montgomery form for EVERY input -/
+theorem SetBytes_lenient (setBigIntBE : List UInt8 → Nat)
+    (hslow : ∀ e, setBigIntBE e = GV.Field.toMont P (Conv.beToNat e % P.q)) (e : List UInt8) :
+    {G}.SetBytes setBigIntBE e = GV.Field.toMont P (Conv.setBytes P.q {NB} e) := by
+  have hq : 0 < P.q := by rw [P_q]; omega
+  rw [Conv.setBytes_eq P.q {NB} hq]
+  obtain ⟨h1, h2⟩ := SetBytes_spec setBigIntBE e
+  by_cases hc : e.length = {NB} ∧ Conv.beToNat e < P.q
+  · obtain ⟨m, g, hm, he⟩ := bigEndian_Element_accept e hc.1 hc.2
+    rw [h1 hc.1 hc.2, he, Nat.mod_eq_of_lt hc.2]
+    exact hm
+  · rw [h2 hc]; exact hslow e
+
+/-! ### `Bits`, `Uint64`, `IsUint64`, `FitsOnOneWord`, `SetUint64` -/
+
+theorem Bits_spec (z : Nat) (hz : z < P.q) : {G}.Bits z = GV.Field.fromMont P z := fromMontGeneric_spec z hz
+
+theorem Uint64_spec (z : Nat) (hz : z < P.q) : {G}.Uint64 z = Conv.uint64 {w} (GV.Field.fromMont P z) := by
+  have hf := lt_trans (fromMont_lt P P_ok z hz) q_lt_W
+  have : {G}.Uint64 z = {L}.fromMontGeneric z := rfl
+  rw [this, fromMontGeneric_spec z hz, Conv.uint64, Nat.mod_eq_of_lt (by simpa using hf)]
+
+/-- a one-word field: `IsUint64()` and `FitsOnOneWord()` are the constant `true`, as in the model (every value is below 2^64) -/
+theorem IsUint64_spec (z : Nat) (hz : z < P.q) :
+    {G}.IsUint64 ∧ {G}.FitsOnOneWord ∧ Conv.isUint64 (GV.Field.fromMont P z) = true := by
+  have hf := lt_trans (fromMont_lt P P_ok z hz) q_lt_W
+  refine ⟨trivial, trivial, ?_⟩
+  simp only [Conv.isUint64, decide_eq_true_eq]; omega
+"""
+    if gold:
+        T += f"""
+/-- `SetUint64 v` (`*z = Element{{v}}; z.Mul(z, &rSquare)`) for `v < q`: the canonical Montgomery element of `v`
+(for `q ≤ v < 2^64` the Go code relies on Mul accepting an unreduced operand: not covered by C01_limb's Mul_spec, K only) -/
+theorem SetUint64_spec (v : Nat) (hv : v < P.q) :
+    {G}.SetUint64 v = GV.Field.toMont P (Conv.setUint64 P.q v) := by
+  rw [Conv.setUint64, Nat.mod_eq_of_lt hv]
+  exact (toMont_spec v hv).2
+"""
+    else:
+        T += f"""
+/-- `SetUint64 v` (`*z = Element{{uint32(v % uint64(q0))}}; z.toMont()`) for EVERY 64-bit `v`: the canonical Montgomery element of `v mod q` -/
+theorem SetUint64_spec (v : Nat) (hv : v < {2**64}) :
+    {G}.SetUint64 v = GV.Field.toMont P (Conv.setUint64 P.q v) := by
+  have hm : v % P.q < P.q := Nat.mod_lt _ (by rw [P_q]; omega)
+  obtain ⟨_, e⟩ := toMont_spec (v % P.q) hm
+  rw [Conv.setUint64, ← e, P_q]
+  unfold {G}.SetUint64
+  have h1 : v % {q} % {2**32} = v % {q} := Nat.mod_eq_of_lt (lt_trans (Nat.mod_lt _ (by omega)) (by omega))
+  simp only [h1]
+"""
+    T += f"""
+end GV.C08gen.{f}
+"""
+    names = ["toMont_spec", "q_le", "words_BE_spec", "words_LE_spec"]
+    for E in ("bigEndian", "littleEndian"):
+        names += [f"{E}_Element_reject", f"{E}_Element_accept", f"{E}_Element_err_iff", f"{E}_Element_model", f"{E}_PutElement_spec",
+                  f"{E}_roundtrip", f"{E}_roundtrip'"]
+    names += ["Bytes_spec", "SetBytesCanonical_eq", "SetBytesCanonical_spec", "SetBytesCanonical_model", "SetBytes_spec", "SetBytes_lenient",
+              "Bits_spec", "Uint64_spec", "IsUint64_spec", "SetUint64_spec"]
+    return T, names
+
+
 def write(f, T):
     p = os.path.join(LEAN, 'Props', f'C08_gen_{f}.lean')
     if not os.path.exists(p) or open(p).read() != T:
@@ -463,6 +788,8 @@ def write(f, T):
 KIND = {}
 for _f in ALL[:18]:
     KIND[_f] = multi
+for _f in ALL[18:21]:
+    KIND[_f] = single
 
 SUMMARY = """/-
 C08_gen — tie T for the byte <-> limb conversions of the field packages: every theorem below is about definitions REGENERATED from
